@@ -406,13 +406,21 @@ impl SaveDirState {
             // To save disk space, we first attempt to hard link the file. If that fails, then just
             // copy it.
             if std::fs::hard_link(source_path, &dest_path).is_err() {
-                std::fs::copy(source_path, &dest_path).with_context(|| {
-                    format!(
-                        "Failed to copy `{}` to `{}`",
-                        source_path.display(),
-                        dest_path.display()
-                    )
-                })?;
+                // The destination might already exist and be a hard link to the source, e.g. if
+                // another process is using the same save directory. Copying over it in place would
+                // then truncate the source file. So we copy to a temporary name, then rename.
+                let mut temp_name = dest_path.file_name().unwrap_or_default().to_owned();
+                temp_name.push(format!(".{}.tmp", std::process::id()));
+                let temp_path = dest_path.with_file_name(temp_name);
+                std::fs::copy(source_path, &temp_path)
+                    .and_then(|_| std::fs::rename(&temp_path, &dest_path))
+                    .with_context(|| {
+                        format!(
+                            "Failed to copy `{}` to `{}`",
+                            source_path.display(),
+                            dest_path.display()
+                        )
+                    })?;
             }
         }
 
